@@ -266,6 +266,10 @@ class Inputs:
             from sympy.physics.quantum.boson import BosonOp
 
             a, b = BosonOp("a"), BosonOp("b")
+            if w.get("sq_stat") == "fermion":
+                from sympy.physics.quantum.fermion import FermionOp
+
+                a = FermionOp("c")  # first mode fermionic (second, if any, stays bosonic)
             two = w.get("sq_modes", 1) == 2
             num = Dagger(a) * a
             numb = Dagger(b) * b
@@ -1542,9 +1546,10 @@ class GraphProp:
             w["internals"] = False
             w["deg"] = False
             w["sq_modes"] = r.choice([1, 2])
+            w["sq_stat"] = r.choice(["boson", "boson", "fermion"])
             for spec in comps:
                 if isinstance(spec["fd"], dict):
-                    kinds = ["a", "a2"] + (["ab"] if w["sq_modes"] == 2 else [])
+                    kinds = ["a"] + (["a2"] if w["sq_stat"] == "boson" else []) + (["ab"] if w["sq_modes"] == 2 else [])
                     spec["fd"] = {"blocks": spec["fd"]["blocks"], "sqmask": r.choice(kinds)} if spec["herm"] else None
                 spec["solver"] = "default"
                 if spec.get("chain") is not None:
